@@ -344,3 +344,40 @@ def reinit(first_idx, v):
     if rec is None or rec.protocol_version != ans:
         return "session-version-differs-from-answer"
     return "ok"
+
+
+def dispatch_session(mi, has_id, rid, sessmode, age, max_idle):
+    """the same dispatch with a session id presented: none / live / unknown / a session idle for `age` seconds
+    (arbitrarily long).  Bookkeeping must never make dispatch raise or lose the response."""
+    from harness.h_C19 import CLOCK, BASE as _B
+
+    s = make_server(0)
+    mgr = s.protocol_handler.session_manager
+    sid = None
+    now = 1000 + age
+    if sessmode == 1 or sessmode == 3:
+        mgr.sessions["sess-x"] = _B.SessionInfo(session_id="sess-x", client_info={}, protocol_version="2025-03-26",
+                                                created_at=1000, last_activity=1000, metadata={})
+        sid = "sess-x"
+        if sessmode == 3:
+            mgr.sessions["sess-y"] = _B.SessionInfo(session_id="sess-y", client_info={}, protocol_version="2025-03-26",
+                                                    created_at=0, last_activity=0, metadata={})
+    elif sessmode == 2:
+        sid = "sess-unknown"
+    CLOCK.set([now, now])
+    method = pick_method(mi)
+    try:
+        msg = _msg(method, has_id, rid, None)
+    except Exception:
+        return "ok"
+    try:
+        out = drive(s.protocol_handler.handle_message(msg, sid))
+    except HarnessError:
+        raise
+    except Exception as e:
+        return "dispatch-raised:" + type(e).__name__
+    if has_id and (not isinstance(out, tuple) or out[0] is None):
+        return "no-response-to-request"
+    if not has_id and isinstance(out, tuple) and out[0] is not None:
+        return "response-to-notification"
+    return "ok"
